@@ -30,7 +30,7 @@ def get_concurrence_2qubit(rho:np.ndarray):
     EVL,EVC = np.linalg.eigh(rho)
     sqrt_rho = (EVC * np.sqrt(np.maximum(0,EVL))) @ EVC.T.conj()
     EVL = np.sqrt(np.maximum(0, np.linalg.eigvalsh(sqrt_rho @ z0 @ sqrt_rho)))
-    ret = np.maximum(2*EVL[-1]-EVL.sum(), 0)
+    ret = np.clip(2*EVL[-1]-EVL.sum(), 0, 1) #rounding may give 1+1ulp for maximally entangled states
     return ret
 
 
@@ -53,7 +53,7 @@ def get_concurrence_pure(psi:np.ndarray):
             tmp0 = psi.conj().T @ psi
         tmp1 = tmp0.reshape(-1)
         tmp2 = np.vdot(tmp1, tmp1).real #Frobenius norm, np.trace(tmp1 @ tmp1)
-        ret = np.sqrt(2*(1-tmp2))
+        ret = np.sqrt(max(2*(1-tmp2), 0)) #purity may round to 1+1ulp for product states
     return ret
 
 
